@@ -40,6 +40,7 @@ impl<T: El> SetMon<T> {
     }
 
     pub fn step(&mut self, op: &Op) -> Res<()> {
+        heartbeat();
         let _ = take_violations();
         let st0 = self.set.verif_state();
         if st0.old.is_some() {
@@ -727,6 +728,7 @@ fn algebra_pair<T: El>(a: &BTreeSet<u64>, b: &BTreeSet<u64>, sa: &HashSet<T, Bh>
 }
 
 fn algebra_case<T: El>(rng: &mut Rng, rep: &mut Report, tag: &str) {
+    heartbeat();
     ledger_reset();
     let _ = take_violations();
     // sizes across several doublings, every overlap pattern
